@@ -137,7 +137,21 @@ def evalf(f, asg):
     return {'and': a and b, 'or': a or b, 'imp': (not a) or b, 'xor': a != b, 'iff': a == b}[k]
 
 
+def rand_clause(rng, names):
+    """conjunction / disjunction of literals over few statements: repeated and complementary literals are likely"""
+    op = rng.choice(['and', 'or'])
+    scope = rng.sample(names, min(len(names), rng.randint(1, 3)))
+    def lit():
+        a = ('atom', rng.choice(scope))
+        return ('neg', a) if rng.random() < 0.4 else a
+    f = lit()
+    for _ in range(rng.randint(1, 4)):
+        f = (op, f, lit()) if rng.random() < 0.5 else (op, lit(), f)
+    return f
+
+
 def rand_formula(rng, names, depth, pconst=0.06):
+    if depth >= 2 and rng.random() < 0.08: return rand_clause(rng, names)
     if depth <= 0 or rng.random() < 0.18:
         r = rng.random()
         if r < pconst: return ('top',) if rng.random() < 0.5 else ('bot',)
@@ -164,6 +178,36 @@ def rand_adf(rng, n, depth, quoted=0.1, locality=None):
             lo = max(0, i - locality); scope = names[lo:i + locality + 1]
         else: scope = names
         acs[nm] = rand_formula(rng, scope, rng.randint(0, depth))
+    return names, acs
+
+
+def rand_adf_structured(rng, n):
+    """ADFs in which the semantics actually propagate: facts and anti-facts, self-supporting statements and negative cycles (stay
+    undecided), and statements derived from the others by small formulas incl. if-then-else shapes, so that values decided in one
+    round decide further statements in later rounds while undecided selectors remain"""
+    names = []
+    pool = list(LABEL_POOL); rng.shuffle(pool)
+    while len(names) < n:
+        nm = pool.pop() if pool and rng.random() < 0.4 else 'v%d' % len(names)
+        if nm not in names: names.append(nm)
+    order = list(names); rng.shuffle(order)
+    acs = {}
+    for i, nm in enumerate(order):
+        r = rng.random()
+        others = [x for x in names if x != nm] or [nm]
+        def lit(): 
+            a = ('atom', rng.choice(others))
+            return ('neg', a) if rng.random() < 0.3 else a
+        if r < 0.27: acs[nm] = ('top',) if rng.random() < 0.6 else ('bot',)
+        elif r < 0.39: acs[nm] = ('atom', nm)                                  # self-support: undecided in the grounded interpretation
+        elif r < 0.44: acs[nm] = ('neg', ('atom', rng.choice(names)))
+        elif r < 0.64:
+            x, y, z = lit(), lit(), lit()
+            acs[nm] = ('or', ('and', x, y), ('and', ('neg', x), z))            # if x then y else z
+        elif r < 0.70: acs[nm] = (rng.choice(['and', 'or']), lit(), lit())
+        elif r < 0.77: acs[nm] = rand_clause(rng, names)
+        elif r < 0.85: acs[nm] = (rng.choice(['imp', 'iff', 'xor']), lit(), lit())
+        else: acs[nm] = rand_formula(rng, others[:6], rng.randint(1, 3))
     return names, acs
 
 
